@@ -20,6 +20,11 @@ def _gpo_H(case):
     return N, H
 
 
+def _stop(case, v):
+    """the stopping time at which get_last_point was asked (intermediate stop probes carry their own)"""
+    return (v.get("detail") or {}).get("stop_T", case["T"])
+
+
 CONDITIONS = {
     # VROOM hard-codes two children per cell
     "vroom_arity_ne_2": lambda case, v: case.get("algo") == "VROOM" and C.arity(case["part"], len(case["box"])) != 2,
@@ -27,9 +32,9 @@ CONDITIONS = {
     "gpo_half_phase_zero": lambda case, v: C.family(case.get("algo", "")) == "GPO" and _gpo_H(case)[1] == 0,
     # GPO/PCT/VPCT stopped before the first validation round began
     "gpo_stopped_before_validation": lambda case, v: C.family(case.get("algo", "")) == "GPO"
-    and _gpo_H(case)[1] >= 1 and case["T"] <= _gpo_H(case)[1],
+    and _gpo_H(case)[1] >= 1 and _stop(case, v) <= _gpo_H(case)[1],
     # StroquOOL stopped early (T < budget)
-    "stroquool_stopped_early": lambda case, v: case.get("algo") == "StroquOOL" and case["T"] < case["n"],
+    "stroquool_stopped_early": lambda case, v: case.get("algo") == "StroquOOL" and _stop(case, v) < case["n"],
     # rounds after the algorithm's own termination
     "stroquool_after_end": lambda case, v: case.get("algo") == "StroquOOL" and bool(v.get("detail", {}).get("after_end")),
     "gpo_after_last_phase": lambda case, v: C.family(case.get("algo", "")) == "GPO"
